@@ -120,7 +120,11 @@ def load_overlay(path, variants=frozenset()):
             h = ln[4:].strip()
             m = re.fullmatch(r'(before|after|after-stmt)\s+<<(.*)>>', h)
             m2 = re.fullmatch(r'(loop|closure)\s+(\d+)\s+(outer|pre|spec|post|body-start|body-end)', h)
-            if m:
+            m3 = re.fullmatch(r'closure\s+~<<(.*)>>\s+spec', h)
+            if m3:
+                # keyed by content: applies to the closure whose body contains the token sequence; optional
+                sec = ('closure~', m3.group(1), 'spec')
+            elif m:
                 sec = (m.group(1), m.group(2), no)
             elif m2:
                 sec = (m2.group(1), int(m2.group(2)), m2.group(3))
@@ -475,6 +479,16 @@ def _closures(body, spec, ctr, dropped, used):
                 csp = spec.sections.get(('closure', k, 'spec')) if spec else None
                 if csp is not None:
                     used.add(('closure', k, 'spec'))
+                elif spec:
+                    ctexts = [x.text for x in cbody if x.sig()]
+                    for key in spec.sections:
+                        if isinstance(key, tuple) and key[0] == 'closure~':
+                            frag = [x.text for x in tokenize(key[1]) if x.sig()]
+                            if any(ctexts[a:a + len(frag)] == frag for a in range(0, len(ctexts) - len(frag) + 1)):
+                                # the parameter is always called __pK in a content-keyed spec
+                                csp = spec.sections[key].replace('__p?', '__p%d' % k)
+                                used.add(key)
+                                break
                 # split parameters at top-level commas
                 plist, cur, depth, commas = [], [], 0, []
                 for x in params:
@@ -817,7 +831,7 @@ def extract_fn(item, file, impl_key, spec, twin_false=False):
     out.append(toks[item.body_close])
     if spec:
         for s in spec.sections:
-            if s not in used:
+            if s not in used and not (isinstance(s, tuple) and s[0] == 'closure~'):
                 raise Unsupported('%s: overlay section %r has no place in the code (loop ordinal gone?)' % (item.name, s))
         spec.used = True
         orig_spec.used = True
